@@ -1,5 +1,24 @@
+import Rigo.CommitLog
 import RigoDriver.Util
+open Rigo.CommitLog
+
 namespace RigoDriver.Commit
-/-- stub: replaced by the component's line-protocol driver -/
-def run : IO Unit := pure ()
+
+def kvOf (ws : List String) (key : String) : Option String :=
+  let pre := key ++ "="
+  (ws.find? (·.startsWith pre)).map fun w => String.ofList (w.toList.drop pre.length)
+
+/-- `crash labels=<l1,l2,...> k=<n>` -> predicted recovery outcome -/
+def stepLine (_ : Unit) (ws : List String) : Unit × Option String :=
+  match ws with
+  | ["reset"] => ((), some "reset")
+  | "crash" :: rest =>
+    match kvOf rest "labels", (kvOf rest "k").bind String.toNat? with
+    | some ls, some k => ((), some (outcomeOfLabels (ls.splitOn ",") k))
+    | _, _ => ((), some "bad-op")
+  | _ => ((), some "bad-op")
+
+def run : IO Unit := do
+  RigoDriver.loop (← IO.getStdin) (← IO.getStdout) () stepLine
+
 end RigoDriver.Commit
